@@ -97,9 +97,9 @@ UniversalString__dump(const UniversalString_t *st,
 	ch = st->buf;
 	end = (st->buf + st->size);
 	for(end -= 3; ch < end; ch += 4) {
-		uint32_t wc =     (ch[0] << 24)
-				| (ch[1] << 16)
-				| (ch[2] << 8)
+		uint32_t wc =     ((uint32_t)ch[0] << 24)
+				| ((uint32_t)ch[1] << 16)
+				| ((uint32_t)ch[2] << 8)
 				|  ch[3];	/* 4 bytes */
 		if(sizeof(scratch) - (p - scratch) < 6) {
 			wrote += p - scratch;
